@@ -87,6 +87,17 @@ class Worker:
         env["PYTHONIOENCODING"] = "utf-8"
         env.setdefault("VERIF_REPO", "/repo")
         env["VYXAL2_VERIF"] = "1"
+        try:  # deep lazy-list nesting recurses through C frames: give workers a large C stack
+            import resource
+
+            soft, hard = resource.getrlimit(resource.RLIMIT_STACK)
+            want = 1 << 30
+            if hard != resource.RLIM_INFINITY:
+                want = min(want, hard)
+            if soft == resource.RLIM_INFINITY or soft < want:
+                resource.setrlimit(resource.RLIMIT_STACK, (want, hard))
+        except Exception:  # noqa
+            pass
         self.proc = subprocess.Popen(
             [PY, "-X", "utf8", os.path.join(VERIF, "lib", "worker.py"), self.prop,
              str(to_r), str(from_w)],
@@ -158,39 +169,70 @@ class Worker:
             return ""
 
 
-def run_units(prop, units, default_timeout=600):
+def run_units(prop, units, default_timeout=600, splitter=None):
     """Run all units on a pool of persistent workers. Returns list of
-    (unit, status, result)."""
+    (unit, status, result). A unit whose worker crashes or times out is re-run
+    alone once on a fresh worker; if it fails again and the property module can
+    split it (split_unit), its cases are run one per unit so that only the
+    offending case is lost (reported as an inconclusive case)."""
     workdir = tempfile.mkdtemp(prefix=f"verif-{prop}-")
     q = queue.Queue()
+    results = {}
+    pending = [0]
+    lock = threading.Lock()
     for i, u in enumerate(units):
         q.put((i, u, 0))
-    results = [None] * len(units)
+        pending[0] += 1
+    counter = [len(units)]
     n = max(1, min(nworkers(), len(units)))
-    lock = threading.Lock()
+
+    def done():
+        with lock:
+            pending[0] -= 1
 
     def loop(idx):
         w = Worker(prop, workdir, idx)
         try:
             while True:
                 try:
-                    i, u, attempt = q.get_nowait()
+                    i, u, attempt = q.get(timeout=0.5)
                 except queue.Empty:
-                    return
-                status, res = w.call(u, u.get("timeout", default_timeout) if isinstance(u, dict) else default_timeout)
+                    with lock:
+                        if pending[0] <= 0:
+                            return
+                    continue
+                tmo = u.get("timeout", default_timeout) if isinstance(u, dict) else default_timeout
+                if attempt >= 2:
+                    tmo = min(tmo, 60)
+                status, res = w.call(u, tmo)
                 if status != "ok":
                     tail = w.err_tail()
                     w.kill()
                     w = Worker(prop, workdir, idx)
                     if attempt == 0:
-                        # re-run alone once (fresh worker)
-                        q.put((i, u, 1))
+                        q.put((i, u, 1))  # re-run alone once (fresh worker)
+                        continue
+                    parts = None
+                    if attempt == 1 and splitter is not None:
+                        try:
+                            parts = splitter(u)
+                        except Exception:  # noqa
+                            parts = None
+                    if parts and len(parts) > 1:
+                        with lock:
+                            for pu in parts:
+                                q.put((counter[0], pu, 2))
+                                counter[0] += 1
+                                pending[0] += 1
+                        done()
                         continue
                     with lock:
-                        results[i] = (u, status, {"stderr_tail": tail})
+                        results[i] = (u, status if attempt < 2 else "case-" + status, {"stderr_tail": tail})
+                    done()
                     continue
                 with lock:
                     results[i] = (u, "ok", res)
+                done()
                 if isinstance(res, dict) and res.get("_recycle"):
                     # the worker grew large: start a fresh interpreter
                     w.kill()
@@ -204,7 +246,7 @@ def run_units(prop, units, default_timeout=600):
     for t in threads:
         t.join()
     shutil.rmtree(workdir, ignore_errors=True)
-    return results
+    return [results[k] for k in sorted(results)]
 
 
 def aggregate(mod, results):
@@ -226,6 +268,11 @@ def aggregate(mod, results):
             agg["inconclusive"].append({"why": "unit lost"})
             continue
         unit, status, res = item
+        if status.startswith("case-"):
+            agg["inconclusive"].append(
+                {"why": f"worker {status[5:]} on this single case", "unit": unit, "stderr": (res or {}).get("stderr_tail", "")[-300:]}
+            )
+            continue
         if status != "ok":
             agg["units_failed"] += 1
             agg["inconclusive"].append(
@@ -283,7 +330,7 @@ def run_check(prop, tier, seed):
     t0 = time.time()
     mod = importlib.import_module(f"lib.props.{prop.lower()}")
     units = mod.units(tier, seed)
-    results = run_units(prop, units, getattr(mod, "UNIT_TIMEOUT", 900))
+    results = run_units(prop, units, getattr(mod, "UNIT_TIMEOUT", 900), getattr(mod, "split_unit", None))
     agg = aggregate(mod, results)
     known = load_known()
 
